@@ -472,14 +472,18 @@ class OpaquePruning(Harness):
     @classmethod
     def inputs(cls, ctx, cfg):
         from engine.symex import bool_var
-        return dict(opaque=[bool_var('opaque_%s' % n) for n in 'abc'], renders=[bool_var('renders_%s' % n) for n in 'abc'])
+        ins = dict(opaque=[bool_var('opaque_%s' % n) for n in 'abc'], renders=[bool_var('renders_%s' % n) for n in 'abc'])
+        if cfg.get('authorizer'):
+            # the authorization callback clips some of the layers to a limited_to geometry (which one: solver's choice)
+            ins['limited'] = [bool_var('limited_%s' % n) for n in 'abc']
+        return ins
 
     @classmethod
     def native_inputs(cls, cex):
         return {k: [bool(x) for x in v] for k, v in cex.items()}
 
     @classmethod
-    def prop(cls, ctx, cfg, opaque, renders):
+    def prop(cls, ctx, cfg, opaque, renders, limited=None):
         import types
         from props.C10_auth import _MapLayer, _Http
         w, log, merged = ctx['w'], ctx['log'], ctx['merged']
@@ -504,14 +508,32 @@ class OpaquePruning(Harness):
         p = P()
         p.bbox, p.size, p.srs, p.format, p.layers = (0, 0, 10, 10), (100, 100), 'EPSG:4326', 'image/png', ['a', 'b', 'c']
         p.format_mime_type, p.bgcolor, p.transparent = 'image/png', '#ffffff', True
-        req = types.SimpleNamespace(params=p, http=_Http({}), dimensions={}, version='1.1.1')
+        env = {}
+        lim = [B(x) for x in limited] if limited is not None else [False] * 3
+        if limited is not None:
+            from props.C10_auth import Cov
+            w.__dict__['load_limited_to'] = lambda d: Cov(d['tag'], False, True)
+
+            def authorize(service, layers, environ=None, **kw):
+                perm = {}
+                for i, n in enumerate('abc'):
+                    perm[n] = {'map': True}
+                    if lim[i]:
+                        perm[n]['limited_to'] = {'tag': n}
+                return {'authorized': 'partial', 'layers': perm}
+            env = {'mapproxy.authorize': authorize}
+        req = types.SimpleNamespace(params=p, http=_Http(env), dimensions={}, version='1.1.1')
         s.map(req)
         got = [n for k, n in log if k == 'map']
         cut = 0
         for i in range(3):
-            if r[i] and o[i]:
+            # a layer hides what lies below it only if it renders the request, is opaque and is not clipped by a limit afterwards
+            if r[i] and o[i] and not lim[i]:
                 cut = i
         want = ['abc'[i] for i in range(cut, 3) if r[i]]
+        if limited is not None:
+            # with limits in play only the missing layers matter here: everything that has to be drawn is drawn, in order
+            return [n for n in got if n in want] == want
         return got == want
 
 
@@ -569,6 +591,10 @@ def obligations(tier, seed):
     for d in ('none', 'shared', 'srs', 'formats', 'coverage', 'opacity', 'opacity-a', 'opacity-b', 'opacity-both', 'transparent_color', 'fwd', 'res_range'):
         specs.append(spec(MOD, 'Compatible', 'combine-compatible/%s' % d, cfg=dict(differs=d)))
     specs.append(spec(MOD, 'OpaquePruning', 'opaque-pruning-loop-of-the-wms-service', cfg={}, cost=5))
+    # known finding: the pruning runs before the authorization callback is asked, so a layer that is opaque by configuration
+    # but clipped to a limited_to geometry afterwards has already removed the layers below it
+    specs.append(spec(MOD, 'OpaquePruning', 'opaque-pruning-before-authorization-limits', kind='finding', finding_key='C14-opaque-pruning-before-authorization',
+                      cfg=dict(authorizer=True), cost=5))
     for c in COMPOSITIONS:
         specs.append(spec(MOD, 'Composition', 'composition/%s-out/%s-over-%s/opacity-%s' % (c['out'], c['modes'][1], c['modes'][0], ('none', 'bottom', 'top')[c['opacity_on'] + 1]), cfg=c, cost=3))
     twins = dict(OpaqueSound=ocfgs[0], FastPath={}, Composition=COMPOSITIONS[0], Combine=dict(n=3), Compatible=dict(differs='coverage'), SubImageLabel={}, OpaquePruning={})
